@@ -5,9 +5,11 @@ import (
 	"regexp/syntax"
 	"strings"
 	"testing"
+	"time"
 
 	"pgregory.net/rapid"
 
+	"verifharness/cli"
 	"verifharness/ragen"
 )
 
@@ -174,6 +176,12 @@ func checkC02(c C02Case) Outcome {
 		out.Violation = bad[0]
 		return out
 	}
+	// the second observation point: the operand that `regex update` writes into the rules file
+	if prob := updateOperandProblem(c.Prog, r.Stdout); prob != "" {
+		out.Detail["update_problem"] = prob
+		out.Violation = prob
+		return out
+	}
 	stress := false
 	for _, m := range []struct{ label, needle string }{{"src-quote", `"`}, {"src-backslash", `\\`}, {"src-x5c", `\x5c`}, {"src-ws-class", `\s`}, {"src-caret", "^"}, {"src-dollar", "$"}, {"src-dot", "."}, {"src-vt", `\x0b`}, {"src-quote-after-backslash", `\\"`}} {
 		if strings.Contains(src, m.needle) {
@@ -223,4 +231,50 @@ func onlyD4(o string, bad []string) bool {
 		}
 	}
 	return true
+}
+
+// updateOperandProblem runs `regex update` for the program and checks what an operand tokenizer
+// reads back from the rules file: exactly generate's output, terminated by the closing quote.
+func updateOperandProblem(p *ragen.Program, generated string) string {
+	sb := cli.NewSandbox("c02u")
+	defer sb.Close()
+	tree := cli.Tree(p.Tree())
+	tree["regex-assembly/932100.ra"] = p.MainText()
+	const head = `SecRule ARGS "@rx `
+	tree["rules/REQUEST-932-X.conf"] = head + "old\" \\\n    \"id:932100,\\\n    phase:2\"\n"
+	root := sb.Path("crs")
+	if err := tree.Write(root); err != nil {
+		panic(err)
+	}
+	r := cli.Run(cli.Opt{Dir: sb.Root, Timeout: 30 * time.Second}, "-d", root, "regex", "update", "932100")
+	if r.Exit != 0 {
+		return fmt.Sprintf("generate succeeds but update fails (exit %d)", r.Exit)
+	}
+	text := sb.Read("crs/rules/REQUEST-932-X.conf")
+	lines := strings.Split(text, "\n")
+	if len(lines) != 4 || !strings.HasPrefix(lines[0], head) {
+		return "update changed the line structure of the rules file"
+	}
+	line := lines[0]
+	end := -1
+	for i := len(head); i < len(line); i++ {
+		if line[i] == '\\' {
+			i++
+			continue
+		}
+		if line[i] == '"' {
+			end = i
+			break
+		}
+	}
+	if end < 0 {
+		return "the operand written by update has no closing quote"
+	}
+	if got := line[len(head):end]; got != generated {
+		return fmt.Sprintf("an operand tokenizer reads %q from the rule line, generate printed %q", clip(got, 120), clip(generated, 120))
+	}
+	if line[end:] != "\" \\" {
+		return "text follows the closing quote of the operand"
+	}
+	return ""
 }
